@@ -125,6 +125,10 @@ def gen_contain(rng, tier):
             ups = depth + rng.randint(0, 2) if rng.random() < 0.8 else rng.randint(0, 6)
             tail = rng.choice(outside + [root_name + "/etc/a.txt", root_name + "/" + rng.choice(inside)])
             path = (start + "/" if start else "") + "../" * ups + tail
+        elif kind < 0.74:
+            # several leading slashes in front of a name that exists on the real host (but not below the scratch root):
+            # still relative to the root of the context
+            path = rng.choice(["//", "///", "/./", "//./"]) + rng.choice(["etc/passwd", "etc/hosts", "etc/group", "proc/version"])
         elif kind < 0.8:
             path = "//" + rng.choice(inside).replace("/", "//")
         elif kind < 0.9:
@@ -623,6 +627,30 @@ def run_deny(spec, ctx):
                 for d in deny_cmds:
                     if d and (line == d or line.startswith(d + " ")):
                         ctx.violation("deny-listed-command-executed", {"command": line, "deny_entry": d})
+            # ---- the same deny list with the root of a real host ('/'): the files live below the scratch area but are named by
+            # their absolute path, spelled with one or several leading slashes (legal: still the same file)
+            from insights.core import blacklist
+            from insights.core.exceptions import BlacklistedSpec, ContentException
+            for rel in sorted(deny_files)[:3]:
+                absf = os.path.join(root, rel.lstrip("/"))
+                if not os.path.isfile(absf):
+                    continue
+                blacklist.add_file(absf)
+                try:
+                    for spelling in ("", "/", "//"):
+                        with audit.record() as ev2:
+                            try:
+                                prov_ = sf.TextFileProvider(spelling + absf, root="/", ctx=HostContext(root="/"))
+                                prov_.content
+                            except (BlacklistedSpec, ContentException):
+                                pass
+                            except Exception:
+                                ctx.count("root_probe_raised_otherwise")
+                        ctx.count("deny_probes_with_the_host_root")
+                        if any(e[0] == "open" and os.path.realpath(e[1]) == os.path.realpath(absf) for e in ev2):
+                            ctx.violation("deny-listed-file-opened", {"file": rel, "spelled": spelling + "<scratch>" + rel, "root": "/"})
+                finally:
+                    blacklist._FILE_FILTERS.discard(absf) if hasattr(blacklist._FILE_FILTERS, "discard") else None
             ctx.count("files_opened_during_collection", len(opened))
             ctx.count("commands_executed_during_collection", len(executed))
             ctx.count("deny_entries", len(deny_files) + len(deny_cmds))
